@@ -1,0 +1,25 @@
+//go:build verif
+
+// Package verifhooks re-exports internals for the external verification harness.
+// It only exists under the build tag "verif".
+package verifhooks
+
+import (
+	"github.com/cedar-policy/cedar-go/internal/eval"
+	"github.com/cedar-policy/cedar-go/types"
+	"github.com/cedar-policy/cedar-go/x/exp/ast"
+)
+
+func ErrKind(err error) string { return eval.VerifErrKind(err) }
+
+func CheckedAdd(a, b int64) (int64, bool) { return eval.VerifCheckedAdd(a, b) }
+func CheckedSub(a, b int64) (int64, bool) { return eval.VerifCheckedSub(a, b) }
+func CheckedMul(a, b int64) (int64, bool) { return eval.VerifCheckedMul(a, b) }
+func CheckedNeg(a int64) (int64, bool)    { return eval.VerifCheckedNeg(a) }
+
+func EntityInOne(env eval.Env, a, b types.EntityUID) bool { return eval.VerifEntityInOne(env, a, b) }
+func EntityInSet(env eval.Env, a types.EntityUID, bs []types.EntityUID) bool {
+	return eval.VerifEntityInSet(env, a, bs)
+}
+
+func FoldPolicy(p *ast.Policy) *ast.Policy { return eval.VerifFoldPolicy(p) }
